@@ -79,6 +79,22 @@ def has(tr, *names):
     return any(e.split()[0] in names for e in tr.evs if e)
 
 
+
+def stream_strict(lines, op, expected):
+    """expected: [(event at which the message was delivered, payload hex)] for the stream of operation `op`.
+    Every message delivered before a poll of the stream that returned Pending (`N`) must have been yielded by then."""
+    got = 0
+    for l in lines:
+        p = l.split(" ")
+        if p[1] == "I" and int(p[2]) == op:
+            got += 1
+        elif p[1] == "N" and int(p[2]) == op:
+            k = int(p[0])
+            due = sum(1 for ke, _ in expected if ke < k)
+            if got < due:
+                return "stream %d returned Pending at event %d having yielded %d of the %d messages delivered to it" % (op, k, got, due)
+    return None
+
 # ---- C08 ------------------------------------------------------------------------------------------
 @oracle("C08")
 def c08(case, lines):
@@ -154,6 +170,29 @@ def c09(case, lines):
         want = [M.hx(x) for x in expect.get(sid, [])]
         if items != want[:len(items)]:
             return "qos2: stream of subscription %s yielded %s, exactly-once delivery allows %s" % (sid, items, want)
+    # nothing is lost either: a QoS 2 message that is not a re-delivery has been yielded by the time its stream is
+    # polled to Pending
+    awaiting = set()
+    per = {}
+    for k, p in inp:
+        i = rx_info(p)
+        if i["t"] == 3:
+            new_msg = True
+            if i["qos"] == 2:
+                new_msg = i["pid"] not in awaiting
+                awaiting.add(i["pid"])
+            if new_msg:
+                for sid in i["subids"][-1:]:
+                    per.setdefault(sid, []).append((k, M.hx(i["payload"])))
+        elif i["t"] == 6:
+            awaiting.discard(i["pid"])
+    for op, sid in sid_of.items():
+        if fp.get(op) is None:
+            continue
+        exp = [(k, x) for k, x in per.get(sid, []) if k > fp[op]]
+        m = stream_strict(lines, op, exp)
+        if m:
+            return "lost: " + m
     return None
 
 
@@ -280,6 +319,8 @@ def c12(case, lines):
         if not first or first[0]["kind"] != want_kind or first[0]["len"] != L:
             return "accept: L=%d <= M=%s but the packet was not written in full (first packet %s)" % (
                 L, Mx, first[0]["kind"] + "/%d" % first[0]["len"] if first else None)
+    if kind == "disc" and too_big and tr.run_result() is not None:
+        return "reject: the oversized DISCONNECT was refused (nothing written) but run() returned %s" % tr.run_result()[1]
     # no quota slot left behind by a rejection: the follow-up QoS 1 publish (7 bytes) goes out iff it fits and a slot is free
     if kind != "disc":
         res1 = [r for _, r in tr.done().get(1, [])]
@@ -361,9 +402,18 @@ def c14(case, lines):
             p = r.split(" ")
             if k > dk and p[0] == "P":
                 return "pending: operation %s still pending when polled after the context was dropped" % p[1]
-            if k > dk and p[0] == "D" and not ("ContextExited" in r) and k > dk:
-                # an operation already completed by the context before the drop reports its own result
-                pass
+            if k > dk and p[0] == "D" and not ("ContextExited" in r):
+                # an operation whose request the context never processed (nothing of it reached the wire, no refusal
+                # was sent to it) cannot report anything but ContextExited
+                op = int(p[1])
+                sp = op_specs(tr).get(op)
+                fpk = first_polls(tr).get(op)
+                if sp and fpk is not None and " ok" in (" " + r) and sp["kind"] in ("disc", "ping", "sub", "unsub", "pub"):
+                    conn = connection_streams(tr)[0]
+                    outp = outbound(tr, conn)
+                    want = {"disc": "disconnect", "ping": "pingreq", "sub": "subscribe", "unsub": "unsubscribe", "pub": "publish"}[sp["kind"]]
+                    if outp is not None and not any(i["kind"] == want and kk >= fpk for kk, i in outp):
+                        return "pending: operation %d (%s) reports success after the context was dropped although its packet was never written" % (op, sp["kind"])
             if p[0] == "E":
                 ended.add(int(p[1]))
     # operations started after the drop fail immediately with ContextExited
@@ -442,6 +492,64 @@ def completion_monitor(case, lines, strict_content=True):
                     return "content: operation %d reports reason %s, its acknowledgement carried %d" % (op, m and m.group(1), i["reason"])
                 if res == "ok" and i["reason"] >= 128 and i["t"] in (4, 5, 7):
                     return "content: operation %d succeeded although its acknowledgement carried reason %d" % (op, i["reason"])
+    if hold or tr.faulty:
+        return None
+    dk = next((k for k, e in enumerate(tr.evs) if e == "dropctx"), None)
+    start, end = run_window(tr)
+    limit = min(x for x in (dk, end, len(tr.evs)) if x is not None)
+    dropped = {}
+    for k, e in enumerate(tr.evs):
+        m = re.match(r"dropop (\d+)$", e)
+        if m:
+            dropped.setdefault(int(m.group(1)), k)
+    polls = {}
+    for k, e in enumerate(tr.evs):
+        m = re.match(r"f?poll (\d+)$", e)
+        if m:
+            polls.setdefault(int(m.group(1)), []).append(k)
+    # nobody is told the context has exited while it is alive and serving
+    for op, rs in done.items():
+        k_done, res = rs[0]
+        if "ContextExited" in res and k_done < limit and (dk is None or k_done < dk) and (end is None or k_done < end):
+            return "exited: operation %d completed with ContextExited at event %d while the context was alive" % (op, k_done)
+    # pings complete one per PINGRESP in issue order (a dropped ping still absorbs its PINGRESP)
+    queue, release = [], {}
+    evs_ping = sorted([(fp[o], o) for o in pings])
+    pi = 0
+    for k in range(limit):
+        while pi < len(evs_ping) and evs_ping[pi][0] == k:
+            queue.append(evs_ping[pi][1])
+            pi += 1
+        for _ in [x for x in pingresps if x == k]:
+            if queue:
+                release[queue.pop(0)] = k
+    for op in pings:
+        rs = done.get(op)
+        if rs and rs[0][1] == "ok":
+            if op not in release or rs[0][0] < release[op]:
+                return "pingorder: ping %d completed at event %d, its own PINGRESP (one per ping, in issue order) %s" % (
+                    op, rs[0][0], ("arrived at event %d" % release[op]) if op in release else "never arrived")
+        if op in release and op not in dropped:
+            later = [k for k in polls.get(op, []) if k > release[op] and k < limit]
+            if later and not rs:
+                return "pingorder: ping %d still pending at event %d although its PINGRESP arrived at event %d" % (op, later[-1], release[op])
+    # an operation polled after its (final) acknowledgement arrived has completed
+    for op, sp in specs.items():
+        if op not in fp or op in dropped or sp["kind"] == "ping":
+            continue
+        own = [i for k, i in outp if k == fp[op] and i["kind"] in ("publish", "subscribe", "unsubscribe")]
+        if not own:
+            continue
+        pkt = own[0]
+        t_ack = {"subscribe": 9, "unsubscribe": 11}.get(pkt["kind"]) or {1: 4, 2: None, 0: None}[pkt["qos"]]
+        if t_ack is None:
+            continue
+        arrived = [k for k, i in acks_seen.get((t_ack, pkt.get("pid")), []) if k > fp[op] and k < limit]
+        if arrived:
+            later = [k for k in polls.get(op, []) if k > arrived[0] and k < limit]
+            if later and not done.get(op):
+                return "pending: operation %d (%s id %s) still pending at event %d, its acknowledgement arrived at event %d" % (
+                    op, pkt["kind"], pkt.get("pid"), later[-1], arrived[0])
     return None
 
 
@@ -550,6 +658,24 @@ def c07(case, lines):
                 got.append(kv(" ".join(p[3:]))["pl"])
         if got != want[:len(got)]:
             return "delivery: stream %d yielded %s, its subscription identifier %d was carried by %s" % (op, got[:5], sid, want[:5])
+        if op not in dropped_at and dk is None:
+            exp = []
+            aw = set()
+            for k, p in inp:
+                i = rx_info(p)
+                if i["t"] == 6:
+                    aw.discard(i["pid"])
+                if i["t"] != 3:
+                    continue
+                red = False
+                if i["qos"] == 2:
+                    red = i["pid"] in aw
+                    aw.add(i["pid"])
+                if k > fp[op] and not red and sid in i["subids"]:
+                    exp.append((k, M.hx(i["payload"])))
+            m = stream_strict(lines, op, exp)
+            if m:
+                return "delivery: " + m
         # a stream polled to Pending must have yielded everything delivered before that poll
         for l in lines:
             p = l.split(" ")
@@ -572,6 +698,21 @@ def c15(case, lines):
     m = completion_monitor(case, lines)
     if m:
         return m
+    if not has(tr, "hold", "reconnect", "dropctx") and not tr.faulty and rr is None:
+        conn = connection_streams(tr)[0]
+        inp, outp = inbound(tr, conn), outbound(tr, conn)
+        if inp is not None and outp is not None:
+            q2 = {i["pid"]: k for k, i in outp if i["kind"] == "publish" and i["qos"] == 2}
+            rels = set(i["pid"] for k, i in outp if i["kind"] == "pubrel")
+            for k, p in inp:
+                i = rx_info(p)
+                if i["t"] == 5 and i["reason"] < 128 and i["pid"] in q2 and q2[i["pid"]] < k and i["pid"] not in rels \
+                        and k < len(tr.evs) - 1:
+                    fpolls = first_polls(tr)
+                    owner = [o for o, kk in fpolls.items() if kk == q2[i["pid"]]]
+                    was_dropped = any(re.match(r"dropop %d$" % o, e) for o in owner for e in tr.evs[:k])
+                    if was_dropped:
+                        return "k2: the PUBREC of QoS 2 publish id %d arrived after its future was dropped and no PUBREL was ever sent (the flow-control slot is never returned)" % i["pid"]
     return c10(case, lines) if not has(tr, "hold") else None
 
 
@@ -586,62 +727,68 @@ def c16(case, lines):
 def c17(case, lines):
     tr = Trace(case, lines)
     conns = connection_streams(tr)
-    if len(conns) != 2:
+    if len(conns) < 2:
         return None
-    md = next((e for e in tr.evs if e.startswith("markdisc ")), None)
-    if md is None:
-        return None
-    elapsed = int(md.split()[1])
     sei = 0
     m = re.search(r"sei=(\d+)", tr.evs[0])
     if m:
         sei = int(m.group(1))
-    expired = sei == 0 or (sei != 4294967295 and elapsed > sei)
-    in1, out1 = inbound(tr, conns[0]), outbound(tr, conns[0])
-    out2 = outbound(tr, conns[1])
-    if in1 is None or out1 is None or out2 is None:
-        return None
-    # unfinished handshakes of the first connection, in original order
-    pending = []
-    for k, o in out1:
-        if o["kind"] == "publish" and o["qos"] > 0:
-            pending.append(("publish", o["pid"], o))
-        elif o["kind"] == "pubrel":
-            pending.append(("pubrel", o["pid"], o))
-    for k, p in in1:
-        i = rx_info(p)
-        if i["t"] in (4, 5):
-            pending = [x for x in pending if not (x[0] == "publish" and x[1] == i["pid"])]
-        elif i["t"] == 7:
-            pending = [x for x in pending if not (x[0] == "pubrel" and x[1] == i["pid"])]
-    run2 = next((k for k, e in enumerate(tr.evs) if e == "run" and k > conns[1]["first"]), None)
-    if run2 is None:
-        return None
-    resent = [(o["kind"], o["pid"], o) for k, o in out2 if k == run2 and o["kind"] in ("publish", "pubrel")]
-    want = [] if expired else pending
-    head = resent[:len(want)]
-    if [(a, b) for a, b, _ in head] != [(a, b) for a, b, _ in want]:
-        return "resend: on resumption %s were re-sent, the unfinished handshakes are %s (expired=%s)" % (
-            [(a, b) for a, b, _ in resent], [(a, b) for a, b, _ in want], expired)
-    for (kind, pid, o), (_, _, orig) in zip(head, want):
-        if kind == "publish":
-            if not o["dup"]:
-                return "resend: re-sent PUBLISH %d without DUP=1" % pid
-            if o["raw"][1:] != orig["raw"][1:] or (o["raw"][0] & 0xf7) != (orig["raw"][0] & 0xf7):
-                return "resend: re-sent PUBLISH %d differs from the original" % pid
-    extra = [(a, b) for a, b, o in resent[len(want):] if a == "pubrel" or o.get("dup")]
-    if extra:
-        return "resend: packets re-sent beyond the unfinished handshakes: %s" % extra
-    if expired:
-        # abandoned operations fail instead of hanging
-        fp = first_polls(tr)
-        for op, k in fp.items():
-            if k < conns[1]["first"]:
-                last_poll = max(kk for kk, e in enumerate(tr.evs) if re.match(r"f?poll %d$" % op, e))
-                if last_poll > run2 and any(x == "P %d" % op for x in tr.by.get(last_poll, [])):
-                    sp = op_specs(tr)[op]
-                    if sp["args"].get("q", "0") != "0":
-                        return "expired: operation %d of the expired session is still pending" % op
+    pending = []          # unfinished handshakes in original order: (kind, pid, original packet info)
+    for j, conn in enumerate(conns):
+        inj, outj = inbound(tr, conn), outbound(tr, conn)
+        if inj is None or outj is None:
+            return None
+        if j > 0:
+            md = [e for e in tr.evs[conns[j - 1]["first"]:conn["first"]] if e.startswith("markdisc ")]
+            if not md:
+                return None
+            elapsed = int(md[-1].split()[1])
+            expired = sei == 0 or (sei != 4294967295 and elapsed > sei)
+            runj = next((k for k, e in enumerate(tr.evs) if e == "run" and conn["first"] < k <= conn["last"]), None)
+            if runj is None:
+                return None
+            resent = [(o["kind"], o["pid"], o) for k, o in outj if k == runj and o["kind"] in ("publish", "pubrel")]
+            want = [] if expired else pending
+            head = resent[:len(want)]
+            if [(a, b) for a, b, _ in head] != [(a, b) for a, b, _ in want]:
+                return "resend: on resumption %d %s were re-sent, the unfinished handshakes are %s (expired=%s)" % (
+                    j, [(a, b) for a, b, _ in resent], [(a, b) for a, b, _ in want], expired)
+            for (kind, pid, o), (_, _, orig) in zip(head, want):
+                if kind == "publish":
+                    if not o["dup"]:
+                        return "resend: re-sent PUBLISH %d without DUP=1" % pid
+                    if o["raw"][1:] != orig["raw"][1:] or (o["raw"][0] & 0xf7) != (orig["raw"][0] & 0xf7):
+                        return "resend: re-sent PUBLISH %d differs from the original" % pid
+            extra = [(a, b) for a, b, o in resent[len(want):] if a == "pubrel" or o.get("dup")]
+            if extra:
+                return "resend: packets re-sent beyond the unfinished handshakes: %s" % extra
+            if expired:
+                pending = []
+                # abandoned operations fail instead of hanging
+                fp = first_polls(tr)
+                for op, k in fp.items():
+                    if k < conn["first"]:
+                        last_poll = max(kk for kk, e in enumerate(tr.evs) if re.match(r"f?poll %d$" % op, e))
+                        if last_poll > runj and any(x == "P %d" % op for x in tr.by.get(last_poll, [])):
+                            sp = op_specs(tr)[op]
+                            if sp["args"].get("q", "0") != "0":
+                                return "expired: operation %d of the expired session is still pending" % op
+        # what this connection adds to / removes from the unfinished handshakes, in the order things happened
+        timeline = [(k, 0, o) for k, o in outj] + [(k, 1, rx_info(p)) for k, p in inj]
+        timeline.sort(key=lambda x: (x[0], x[1]))
+        for k, side, x in timeline:
+            if side == 0:
+                if x["kind"] == "publish" and x["qos"] > 0 and not x["dup"]:
+                    if not any(a == "publish" and b == x["pid"] for a, b, _ in pending):
+                        pending.append(("publish", x["pid"], x))
+                elif x["kind"] == "pubrel":
+                    if not any(a == "pubrel" and b == x["pid"] for a, b, _ in pending):
+                        pending.append(("pubrel", x["pid"], x))
+            else:
+                if x["t"] in (4, 5):
+                    pending = [y for y in pending if not (y[0] == "publish" and y[1] == x["pid"])]
+                elif x["t"] == 7:
+                    pending = [y for y in pending if not (y[0] == "pubrel" and y[1] == x["pid"])]
     return None
 
 
@@ -695,6 +842,25 @@ def c03(case, lines):
 # ---- C04: panic / stall only (generic) --------------------------------------------------------------
 @oracle("C04")
 def c04(case, lines):
+    """never wedged with unread input: when everything delivered in the running phase is a sequence of whole packets
+    that the client keeps serving, the PINGRESP at the end completes the ping pending since the start"""
+    tr = Trace(case, lines)
+    if tr.faulty or tr.run_result() is not None or has(tr, "reconnect", "dropctx"):
+        return None
+    conn = connection_streams(tr)[0]
+    inp = inbound(tr, conn)
+    specs, fp = op_specs(tr), first_polls(tr)
+    pings = [o for o, sp in specs.items() if sp["kind"] == "ping" and o in fp]
+    if inp is None or not pings:
+        return None
+    buf = b"".join(conn["in"][k] for k in sorted(conn["in"]))
+    if M.split_packets(buf) is None:
+        return None
+    op = pings[0]
+    after = [k for k, p in inp if p[0] >> 4 == 13 and k > fp[op]]
+    last_poll = max([k for k, e in enumerate(tr.evs) if e in ("poll %d" % op, "fpoll %d" % op)] or [-1])
+    if after and last_poll > after[0] and not tr.done().get(op):
+        return "stall: a PINGRESP was delivered at event %d (all input well formed, run() still serving) but the ping pending since event %d never completed" % (after[0], fp[op])
     return None
 
 
@@ -703,11 +869,206 @@ def c04(case, lines):
 def c01(case, lines):
     tr = Trace(case, lines)
     for conn in connection_streams(tr):
-        if outbound(tr, conn) is None and not tr.faulty:
+        if tr.faulty:
+            continue
+        wire = bytearray()
+        for k in range(conn["first"], conn["last"] + 1):
+            for r in tr.by.get(k, []):
+                if r.startswith("W "):
+                    wire += M.unhex(r[2:])
+        pk = M.split_packets(bytes(wire))
+        if pk is None:
             return "wire: the bytes written are not a concatenation of whole packets"
+        for p in pk:
+            e = M.wellformed_client_packet(p)
+            if e:
+                return "malformed: a written packet (%s...) is not well-formed MQTT 5: %s" % (M.hx(p[:12]), e)
+    return None
+
+
+def _fnv(b):
+    h = 0x811c9dc5
+    for x in b:
+        h ^= x
+        h = (h * 0x01000193) & 0xffffffff
+    return h
+
+
+def _big(b):
+    b = bytes(b)
+    return "L%d:%08x" % (len(b), _fnv(b)) if len(b) > 96 else M.hx(b)
+
+
+def _opt(v, raw=False):
+    if v is None:
+        return "~"
+    return "=" + (str(v) if raw else _big(v))
+
+
+def decode_props(pr):
+    """property section body -> (dict id -> last value, [user properties in wire order]) or None"""
+    d, ups, i = {}, [], 0
+    while i < len(pr):
+        pid = pr[i]
+        t = M.PTYPE.get(pid)
+        i += 1
+        if t == "byte":
+            d[pid] = pr[i]
+            i += 1
+        elif t == "u16":
+            d[pid] = (pr[i] << 8) | pr[i + 1]
+            i += 2
+        elif t == "u32":
+            d[pid] = int.from_bytes(pr[i:i + 4], "big")
+            i += 4
+        elif t == "var":
+            v, i = M.read_varint(pr, i)
+            d[pid] = v
+        elif t in ("str", "bin"):
+            ln = (pr[i] << 8) | pr[i + 1]
+            d[pid] = bytes(pr[i + 2:i + 2 + ln])
+            i += 2 + ln
+        elif t == "pair":
+            kl = (pr[i] << 8) | pr[i + 1]
+            k = bytes(pr[i + 2:i + 2 + kl])
+            i += 2 + kl
+            vl = (pr[i] << 8) | pr[i + 1]
+            ups.append((k, bytes(pr[i + 2:i + 2 + vl])))
+            i += 2 + vl
+        else:
+            return None
+    return d, ups
+
+
+def _ups(u):
+    return ",".join("%s:%s" % (_big(k), _big(v)) for k, v in u) if u else "-"
+
+
+def expected_view(p):
+    """the accessor line the standard implies for a well-formed server packet (None: not modelled here)"""
+    t = p[0] >> 4
+    body = p[M.read_varint(p, 1)[1]:]
+    if t == 2:
+        pl, k = M.read_varint(body, 2)
+        dp = decode_props(body[k:k + pl])
+        if dp is None:
+            return None
+        d, u = dp
+        sp, r = body[0] & 1, body[1]
+        if r >= 128:
+            return "C err Connect r=%d rs=%s sr=%s up=%s" % (r, _opt(d.get(31)), _opt(d.get(28)), _ups(u))
+        if d.get(41) == 0:
+            return None
+        return ("C ok sp=%d r=%d wsa=%d sia=%d ssa=%d mq=%d ra=%d ska=%s rm=%d tam=%d sei=%s mps=%s aci=%s rs=%s ri=%s sr=%s am=%s ad=%s up=%s" % (
+            sp, r, d.get(40, 1), d.get(41, 1), d.get(42, 1), d.get(36, 2), d.get(37, 1), _opt(d.get(19), True), d.get(33, 65535),
+            d.get(34, 0), _opt(d.get(17), True), _opt(d.get(39), True), _opt(d.get(18)), _opt(d.get(31)), _opt(d.get(26)),
+            _opt(d.get(28)), _opt(d.get(21)), _opt(d.get(22)), _ups(u)))
+    if t == 15:
+        if not body:
+            return "C auth r=0 rs=~ am=~ ad=~ up=-"
+        pl, k = M.read_varint(body, 1)
+        dp = decode_props(body[k:k + pl])
+        if dp is None:
+            return None
+        d, u = dp
+        return "C auth r=%d rs=%s am=%s ad=%s up=%s" % (body[0], _opt(d.get(31)), _opt(d.get(21)), _opt(d.get(22)), _ups(u))
+    if t == 3:
+        i = rx_info(p)
+        tl = (body[0] << 8) | body[1]
+        topic = body[2:2 + tl]
+        k = 2 + tl + (2 if i["qos"] else 0)
+        pl, k2 = M.read_varint(body, k)
+        dp = decode_props(body[k2:k2 + pl])
+        if dp is None:
+            return None
+        d, u = dp
+        return "dup=%d ret=%d q=%d t=%s pfi=%s ta=%s mei=%s cd=%s rt=%s ct=%s pl=%s up=%s" % (
+            i["dup"], p[0] & 1, i["qos"], _big(topic), _opt(d.get(1), True), _opt(d.get(35), True), _opt(d.get(2), True),
+            _opt(d.get(9)), _opt(d.get(8)), _opt(d.get(3)), _big(i["payload"]), _ups(u))
+    if t in (4, 5, 7, 9, 11):
+        pid = (body[0] << 8) | body[1]
+        if t in (9, 11):
+            pl, k = M.read_varint(body, 2)
+            dp = decode_props(body[k:k + pl])
+            if dp is None:
+                return None
+            d, u = dp
+            return "ok %s rs=%s up=%s codes=%s" % ("sub" if t == 9 else "unsub", _opt(d.get(31)), _ups(u), M.hx(body[k + pl:]))
+        reason = body[2] if len(body) > 2 else 0
+        d, u = {}, []
+        if len(body) > 3:
+            pl, k = M.read_varint(body, 3)
+            dp = decode_props(body[k:k + pl])
+            if dp is None:
+                return None
+            d, u = dp
+        if reason < 128:
+            return "ok" if t != 5 else None
+        return "err %s r=%d rs=%s up=%s" % ({4: "Puback", 5: "Pubrec", 7: "Pubcomp"}[t], reason, _opt(d.get(31)), _ups(u))
+    if t == 14:
+        reason = body[0] if body else 0
+        d, u = {}, []
+        if len(body) > 1:
+            pl, k = M.read_varint(body, 1)
+            dp = decode_props(body[k:k + pl])
+            if dp is None:
+                return None
+            d, u = dp
+        if reason == 0:
+            return "R ok"
+        return "R err Disconnected r=%d sei=0 rs=%s sr=%s up=%s" % (reason, _opt(d.get(31)), _opt(d.get(28)), _ups(u))
     return None
 
 
 @oracle("C02")
 def c02(case, lines):
+    """every value exposed through the accessors equals the value encoded in the (well-formed) packet delivered, with the
+    standard's defaults for absent properties - computed here from the packet bytes, independently of model and code"""
+    tr = Trace(case, lines)
+    if tr.faulty or has(tr, "reconnect", "dropctx", "hold", "spin", "dropop", "dropstream"):
+        return None
+    conn = connection_streams(tr)[0]
+    inp, outp = inbound(tr, conn), outbound(tr, conn)
+    if inp is None or outp is None:
+        return None
+    fp, specs = first_polls(tr), op_specs(tr)
+    items = [l.split(" ", 3) for l in lines if l.split(" ")[1] == "I"]
+    n_item = 0
+    subs = sorted([o for o, sp in specs.items() if sp["kind"] == "sub" and o in fp], key=lambda o: fp[o])
+    for k, p in inp:
+        t = p[0] >> 4
+        exp = expected_view(p)
+        if exp is None:
+            continue
+        if t in (2, 15):
+            got = [r for r in tr.by.get(k, []) if r.startswith("C ")]
+            if got and got[0] != exp:
+                return "values: connect()/authorize() returned '%s', the packet delivered encodes '%s'" % (got[0][:200], exp[:200])
+        elif t == 14:
+            got = [r for r in tr.by.get(k, []) if r.startswith("R ")]
+            if got and got[0] != exp:
+                return "values: run() returned '%s', the DISCONNECT delivered encodes '%s'" % (got[0][:200], exp[:200])
+        elif t == 3:
+            i = rx_info(p)
+            if len(subs) == 1 and i["subids"] == [1] and k > fp[subs[0]]:
+                if n_item < len(items):
+                    got = items[n_item][3]
+                    n_item += 1
+                    if got != exp:
+                        return "values: the stream yielded '%s', the PUBLISH delivered encodes '%s'" % (got[:200], exp[:200])
+        else:
+            pid = ((p[M.read_varint(p, 1)[1]] << 8) | p[M.read_varint(p, 1)[1] + 1])
+            kind = {4: "publish", 5: "publish", 7: "publish", 9: "subscribe", 11: "unsubscribe"}[t]
+            owner = [o for o, kk in fp.items() if any(i["kind"] == kind and i.get("pid") == pid and k2 == kk for k2, i in outp)]
+            if len(owner) != 1:
+                continue
+            res = [(kd, r) for kd, r in tr.done().get(owner[0], []) if kd >= k]
+            if not res:
+                continue
+            if t == 4 or t in (9, 11) or (t == 7) or (t == 5 and exp.startswith("err")):
+                # QoS 2: the PUBREC result is final only when it fails; the PUBCOMP decides otherwise
+                if t == 4 and specs[owner[0]]["args"].get("q") != "1":
+                    continue
+                if res[0][1] != exp:
+                    return "values: operation %d completed with '%s', its acknowledgement encodes '%s'" % (owner[0], res[0][1][:200], exp[:200])
     return None
